@@ -785,6 +785,9 @@ class C18(core.PropertyCheck):
                             return f"{name} entry {i} ({ref}): unknown placeholder {u!r} not reported: {rf['diags']}"
                     if ref and ref in seen_refs and f"RefAlreadyExists:{ref}" not in rf["diags"]:
                         return f"{name} entry {i}: duplicate ref {ref!r} not reported: {rf['diags']}"
+                    if not ref and "RefAlreadyExists:" in rf["diags"]:
+                        # two steps that simply have no ref do not share one
+                        return f"{name} entry {i}: an entry WITHOUT ref is reported as a duplicate ('ref  already exists'): {rf['diags']}"
                     seen_refs.add(ref)
                 if cat != "steps":
                     r = got["ref"] or ""
